@@ -13,6 +13,38 @@ Definition closeV (v : list Q) (zs : list Z) : bool :=
 Definition closeVV := all2 closeV.
 Definition closeVVV := all2 closeVV.
 
+(* Derivative vectors of increasing order: the k-th vector is compared at 1e-9 relative to the largest component of the vectors of
+   order <= k (at least 1).  A high derivative that is exactly zero (e.g. order > degree of a rational curve with equal weights) is
+   computed by A4.2 / A4.4 as a difference of products of the LOWER derivatives, so its rounding error is relative to those. *)
+Definition qmax (a b : Q) : Q := if Qle_bool a b then b else a.
+Definition closeVs (s : Q) (v : list Q) (zs : list Z) : bool :=
+  all2 (fun q z => Qle_bool (Qabs (q * scaleQ - inject_Z z)) (tolQ * s)) v zs.
+Fixpoint closeVV_run (s : Q) (vs : list (list Q)) (zss : list (list Z)) : bool :=
+  match vs, zss with
+  | [], [] => true
+  | v :: vs', z :: zss' => let s' := qmax s (vscaleQ v) in andb (closeVs s' v z) (closeVV_run s' vs' zss')
+  | _, _ => false
+  end.
+Definition closeVVr := closeVV_run 1.
+(* SKL[k][l]: relative to the entries [k'][l'] with k' <= k and l' <= l; prev = the bounds of the previous row per column *)
+Fixpoint row_run (prev : list Q) (s : Q) (vs : list (list Q)) (zss : list (list Z)) : bool * list Q :=
+  match vs, zss with
+  | [], [] => (true, [])
+  | v :: vs', z :: zss' =>
+    let p := match prev with [] => 1 | a :: _ => a end in
+    let s' := qmax (qmax s p) (vscaleQ v) in
+    let '(b, rest) := row_run (tl prev) s' vs' zss' in
+    (andb (closeVs s' v z) b, s' :: rest)
+  | _, _ => (false, [])
+  end.
+Fixpoint closeVVV_run (prev : list Q) (rows : list (list (list Q))) (zrows : list (list (list Z))) : bool :=
+  match rows, zrows with
+  | [], [] => true
+  | r :: rows', z :: zrows' => let '(b, nxt) := row_run prev 1 r z in andb b (closeVVV_run nxt rows' zrows')
+  | _, _ => false
+  end.
+Definition closeVVVr := closeVVV_run [].
+
 (* model: unnormalised vector d; implementation: unit vector u rendered as u_i*|u_i| (signed squares).
    d_i*|d_i| / (d.d) must agree with u_i*|u_i| *)
 Definition close_unit (d : res (list Q)) (zs : list Z) : bool :=
